@@ -401,6 +401,13 @@ def run_line(state, sx):
     return 'bad-op'
 
 
+def _nan_spelling(x):
+    """a NaN is a NaN whichever object holds it: python float, the shared np.nan, an np.float64 scalar"""
+    if isinstance(x, str):
+        return 'F:nan' if x in ('NF:nan', 'XF:nan') else x
+    return [_nan_spelling(y) for y in x]
+
+
 def compare(case, i, line, ir, mr):
     if ir == mr:
         return None
@@ -411,8 +418,8 @@ def compare(case, i, line, ir, mr):
         return 'eq/in_ must return a boolean and never raise: %s (model: %s)' % (ir, mr)
     if sx[1] == 'eq':
         x, y = sx[2], sx[3]
-        if x == y:
-            return 'eq(x, structural copy of x) is False'
+        if x == y or _nan_spelling(x) == _nan_spelling(y):
+            return 'eq(x, structural copy of x holding other NaN objects) is False'
         if kind(x) != kind(y):
             return 'eq is True although the container types differ (%s vs %s)' % (kind(x), kind(y))
         if shape_of(x) != shape_of(y) or labels_of(x) != labels_of(y):
